@@ -55,6 +55,7 @@ type ArcPath struct {
 	S        []float64 // S[i] = arc length at P[i]
 	SegS     []float64 // SegS[j] = arc length at the start of segment j; SegS[len] = L
 	SegCurve []bool    // segment j is a Bézier or an arc
+	SegKind  []float64 // command of segment j
 	Closed   bool
 	L        float64
 }
@@ -65,6 +66,7 @@ func NewArcPath(sp Subpath, n int) *ArcPath {
 	for _, s := range sp.Segs {
 		a.SegS = append(a.SegS, a.L)
 		a.SegCurve = append(a.SegCurve, s.Kind == CmdQuad || s.Kind == CmdCube || s.Kind == CmdArc)
+		a.SegKind = append(a.SegKind, s.Kind)
 		pts := s.Sample(n)
 		for _, p := range pts[1:] {
 			a.L += a.P[len(a.P)-1].Dist(p)
@@ -159,6 +161,16 @@ func (a *ArcPath) InWindow(q Pt, lo, hi, tol float64) bool {
 		}
 	}
 	return false
+}
+
+// SegAt returns the index of the segment containing arc length s.
+func (a *ArcPath) SegAt(s float64) int {
+	for j := len(a.SegKind) - 1; j > 0; j-- {
+		if a.SegS[j] <= s {
+			return j
+		}
+	}
+	return 0
 }
 
 // CurveTol is the arc-length tolerance for a position s on the subpath: rel·max(L,1) for the
